@@ -128,4 +128,17 @@ theorem iterRem_eq (p : Nat → Bool) : ∀ (f : Nat) (s : Store) (curr : Nat),
       have hf : ∀ s' : Store, fieldOf s' iterShape.stepField curr = s'.next curr := fun s' => by simp [iterShape, fieldOf]
       rw [hf, iterRem_eq p f]
 
+/-- `__reversed__` with removal of the visited element is the same generic walk with the `reversed` shape -/
+theorem reversedRem_eq (p : Nat → Bool) : ∀ (f : Nat) (s : Store) (curr : Nat),
+    reversedRem p f s curr = iIterRem reversedShape discardProg p f s curr
+  | 0, _, _ => rfl
+  | f + 1, s, curr => by
+    unfold reversedRem iIterRem
+    by_cases hc : curr = 0
+    · simp [hc]
+    · simp only [hc, ↓reduceIte]
+      rw [← discard_eq]
+      have hf : ∀ s' : Store, fieldOf s' reversedShape.stepField curr = s'.prev curr := fun s' => by simp [reversedShape, fieldOf]
+      rw [hf, reversedRem_eq p f]
+
 end Pyx.OShape
